@@ -197,6 +197,43 @@ def parts(c, env=None):
     return op, sorted(str(x) for x in ids if x), sorted(consts, key=lambda x: (str(type(x)), x)), "(%s%s%s)" % (l, op, r)
 
 
+_REL = {"<": {"<"}, "<=": {"<", "="}, "==": {"="}, ">=": {">", "="}, ">": {">"}, "!=": {"<", ">"}}
+_REL_INV = {frozenset(v): k for k, v in _REL.items()}
+
+
+def _merge_relations(lits):
+    """several comparisons of the same two operands are one relation: (x != y) && (x >= y) is x > y - an else-if chain written in
+    another order yields the same literal"""
+    groups, order = {}, []
+    for d in lits:
+        if d["op"] not in _REL:
+            order.append(("keep", d))
+            continue
+        t = d["text"]
+        # operands as oriented by parts(): "(l op r)"
+        key = (tuple(d["ids"]), tuple(str(c) for c in d["consts"]), t.replace(d["op"], "\0", 1) if t.count(d["op"]) >= 1 else t)
+        if key not in groups:
+            groups[key] = {"rel": set(_REL[d["op"]]), "first": d}
+            order.append(("grp", key))
+        else:
+            groups[key]["rel"] &= _REL[d["op"]]
+    out = []
+    for kind, x in order:
+        if kind == "keep":
+            out.append(x)
+            continue
+        g = groups[x]
+        rel = frozenset(g["rel"])
+        d = g["first"]
+        if not rel:
+            return None      # contradictory conditions: the call site is unreachable on this (inlined) path
+        if rel in _REL_INV and _REL_INV[rel] != d["op"]:
+            op = _REL_INV[rel]
+            d = dict(d, op=op, text=x[2].replace("\0", op, 1))
+        out.append(d)
+    return out
+
+
 def inventory(facts):
     """one row per call of a structural operation (VERBS) inside a library class: the comparison literals known to hold when the
     call is reached (astu.reach: nested ifs, guard clauses, else branches, loop conditions, && chains all give the same literals)"""
@@ -275,6 +312,9 @@ def inventory(facts):
             base = "%s::%s->%s" % (short(fn["rect"]), fn["name"], c["cname"])
             i = cnt.get(base, 0)
             cnt[base] = i + 1
+            lits = _merge_relations(lits)
+            if lits is None:
+                continue
             lits.sort(key=lambda d: (d["ids"], d["text"]))
             rows["%s#%d" % (base, i)] = {"lits": lits, "text": " && ".join(d["text"] for d in lits), "loc": c.get("loc"), "fn": fn["qname"]}
     return rows
@@ -295,9 +335,9 @@ def _cmp(want, got):
             moved.append((w, near[0]))
         else:
             lost.append(w)
-    if moved:
-        return "violated", moved
-    if lost or rest:
+    if len(moved) == 1 and not lost and not rest:
+        return "violated", moved      # everything else agrees: one boundary moved
+    if moved or lost or rest:
         return "unrecognised", None
     return "discharged", None
 
